@@ -25,7 +25,7 @@ Muts == {C("set", Files[i], n) : i \in 1..Len(Files), n \in Names}
         \cup {Ask(a) : a \in {"y", "y\n", "Y\r\n", "n\n", "yes\n", "\ny\n", ""}}
 (* quick tier: a seed-rotated third of the mutations at depth >= 2 *)
 H(c) == Len(c.file) + 3 * Len(c.name) + (IF c.op = "unset" THEN 1 ELSE 0)
-Allowed(c, k) == k = 0 \/ (H(c) + SeedN + k) % (IF Full THEN 3 ELSE 16) = 0 \/ c.op = "clear"
+Allowed(c, k) == k = 0 \/ (H(c) + SeedN + k) % (IF Full THEN 5 ELSE 16) = 0 \/ c.op = "clear"
                  \/ (c.op = "clearask" /\ (Len(c.answer) + SeedN + k) % 3 = 0)
 
 Observers(d) == <<C("list", "", "")>>
